@@ -368,6 +368,10 @@ def run(ctx):
                 params = gen.rand_prim(rng)
             if not gen.json_text_ok(params):
                 continue
+            if rng.random() < 0.2:
+                # the same data in subclasses of the built-in containers (OrderedDict, defaultdict, namedtuple, ...)
+                params = gen.subclassed(rng, params)
+                ctx.count("params-in-container-subclasses")
             method = rng.choice(METHODS_OK + [gen.rand_str(rng) or "m"])
             one(ctx, st, jr, rng.choice(("dumps", "dump")), method, params, rpcid, version, None,
                 rng.choice(FLAGS), cname, cfg)
@@ -375,6 +379,9 @@ def run(ctx):
             res = gen.json_value(rng, 5, 4, falsy_bias=0.3)
             if not gen.json_text_ok(res):
                 continue
+            if rng.random() < 0.2:
+                res = gen.subclassed(rng, res)
+                ctx.count("results-in-container-subclasses")
             one(ctx, st, jr, rng.choice(("dumps", "dump")), None, res, rpcid, version, True, None, cname, cfg)
         else:
             data = gen.json_value(rng, 3, 3, falsy_bias=0.4)
